@@ -9,4 +9,7 @@ func init() {
 	reg.Register("ag-cells", func(a reg.Args) (interface{}, error) {
 		return ag.RunCells(a.In, a.Out, a.Seed, a.Sample, a.Reps, a.Workers, a.Base, a.NoShuffle)
 	})
+	reg.Register("ag-replay", func(a reg.Args) (interface{}, error) {
+		return ag.RunReplay(a.Out, a.Seed)
+	})
 }
